@@ -84,6 +84,19 @@ def oracle_read(case, results, dfile):
         k = o[0]
         exp = None
         ex = None
+        if k == "readinto" and len(o) > 2 and o[2] in ("ro", "romv"):
+            # a read-only target: TypeError from the argument conversion, nothing consumed, open or closed
+            try:
+                (io.BytesIO(b"xyz") if closed else ref).readinto(sh.make_target(o[2], o[1]))
+                exp = ["x", "reference accepted a read-only target"]
+            except TypeError:
+                exp = ["e", 2]
+            expand.append(None)
+            got = r[:2] if r[0] == "e" else r
+            if got != exp:
+                return "operation %d %s returned %s, the reference stream gives %s" % (i, o, r, exp), judged, expand
+            judged += 1
+            continue
         if k == "flush" and closed:
             # io.BytesIO raises ValueError, BinaryZlibFile.flush() (= IOBase.flush) returns None: flush is not among
             # the operations of the property; not judged (the model says None)
@@ -97,9 +110,11 @@ def oracle_read(case, results, dfile):
             b = ref.read() if o[1] is None or o[1] < 0 else ref.read(o[1])
             exp = ["b", sh.sha(b), len(b)]
         elif k == "readinto":
-            ba = bytearray(o[1])
-            m = ref.readinto(ba)
-            exp = ["i", sh.sha(ba[:m]), m, True]
+            # io.BytesIO.readinto on the same kind of target (bytearray, memoryview, array.array, cast view, ctypes)
+            t = sh.make_target(o[2] if len(o) > 2 else "bytearray", o[1])
+            m = ref.readinto(t)
+            ba = sh.target_bytes(t)
+            exp = ["i", sh.sha(ba[:m]), m, ba[m:] == b"\xaa" * (o[1] - m)]
         elif k == "readline":
             p0 = ref.tell()
             b = ref.readline(o[1])
@@ -183,7 +198,8 @@ def model_ops(case, expand):
             out.append("ORead %s" % common.zlit(-1 if o[1] is None else o[1]))
             groups.append(1)
         elif k == "readinto":
-            out.append("OReadinto %s" % common.zlit(o[1]))
+            # the model's readinto takes the BYTE length of the target; a read-only target is its own operation
+            out.append("OReadintoRO" if len(o) > 2 and o[2] in ("ro", "romv") else "OReadinto %s" % common.zlit(o[1]))
             groups.append(1)
         elif k == "readline":
             if ex is None or ex < 0:
@@ -287,7 +303,7 @@ def compare_read(case, r, mtrace, groups, dfile, drift=None, scope_end=None):
 
 
 # ------------------------------------------------------------------ generators
-SMALL_ALPHABET = [["read", 1], ["read", 3], ["read", -1], ["readinto", 2], ["seek", 0, 0], ["seek", 4, 0],
+SMALL_ALPHABET = [["read", 1], ["read", 3], ["read", -1], ["readinto", 2, "arrH"], ["seek", 0, 0], ["seek", 4, 0],
                   ["seek", -1, 1], ["seek", -2, 2], ["tell"]]
 
 
@@ -333,8 +349,11 @@ def gen_ops(rng, n, text, length):
                 pos = n
         elif x < 0.48:
             k = rng.choice([0, 1, 7, 100, 8192, 8193, rng.randint(0, max(1, n))])
-            ops.append(["readinto", k])
-            pos = min(n, pos + k)
+            kind = rng.choice(["bytearray", "bytearray"] + sorted(sh.TARGET_KINDS))
+            k -= k % sh.TARGET_KINDS[kind]          # k is the byte length of the target
+            ops.append(["readinto", k, kind])
+            if kind not in ("ro", "romv"):
+                pos = min(n, pos + k)
         elif x < 0.56 and text:
             ops.append(["readline", rng.choice([-1, -1, 1, 5, 300])])
         elif x < 0.70:
